@@ -62,26 +62,10 @@ theorem rdItems_payload (e : Endian) (cut : Int) (w : Nat) (hw : 0 < w) (n : Nat
 
 /-! ### the numeric forms, `N = 0` -/
 
-def rdPiecesFrom (v : V2) (cut : Int) (w : Nat) (chk : Bool) (fuel : Nat) (s : List Nat) (acc : List Nat) :
-    M (List Nat × Bool × List Nat) :=
+def rdPiecesFrom (v : V2) (cut : Int) (w fuel : Nat) (s : List Nat) (acc : List Nat) : M (List Nat × List Nat) :=
   match getKey v s with
   | .error e => .error e
-  | .ok (key, s) => rdPieces v cut w chk fuel key s acc false
-
-/-- no item of any piece has its top bit set (only needed for form 'uint' with 64-bit keys: `chk`) -/
-def SmallItems (v : V2) (w : Nat) (chk : Bool) (pieces : List (List Int)) : Prop :=
-  chk = true → ∀ p ∈ pieces, ∀ x ∈ reinterp v.e w (keys v p), x < 9223372036854775808
-
-theorem overflow_false (v : V2) (w : Nat) (chk : Bool) (cut n : Int) (p : List Int)
-    (h : chk = true → ∀ x ∈ reinterp v.e w (keys v p), x < 9223372036854775808) :
-    overflow chk cut n (reinterp v.e w (keys v p)) = false := by
-  unfold overflow
-  cases chk with
-  | false => rfl
-  | true =>
-    have := h rfl
-    simp only [Bool.true_and, Bool.and_eq_false_iff, List.any_eq_false, decide_eq_true_eq, Nat.not_le]
-    exact Or.inr this
+  | .ok (key, s) => rdPieces v cut w fuel key s acc
 
 theorem div_len (v : V2) (w : Nat) (hw : 0 < w) (p : List Int) (hd : w ∣ p.length * kb v) :
     (((keys v p).length : Nat) : Int) / (w : Int) = (((keys v p).length / w : Nat) : Int) ∧
@@ -91,16 +75,16 @@ theorem div_len (v : V2) (w : Nat) (hw : 0 < w) (p : List Int) (hd : w ∣ p.len
   obtain ⟨a, ha⟩ := hd
   rw [ha, Nat.mul_div_cancel_left _ hw, Nat.mul_comm]
 
-theorem rdPiecesFrom_enc (v : V2) (cut : Int) (w : Nat) (chk : Bool) (hw : 0 < w) (neg : Int) (hneg : neg < 0)
-    (hnk : InKey v neg) (tail : List Nat) :
+theorem rdPiecesFrom_enc (v : V2) (cut : Int) (w : Nat) (hw : 0 < w) (neg : Int) (hneg : neg < 0) (hnk : InKey v neg)
+    (tail : List Nat) :
     ∀ (pieces : List (List Int)) (acc : List Nat) (fuel : Nat),
-      (∀ p ∈ pieces, PieceOk v p ∧ w ∣ p.length * kb v) → SmallItems v w chk pieces → pieces.length < fuel →
-      rdPiecesFrom v cut w chk fuel (pieces.flatMap (encPiece v) ++ (K v neg ++ tail)) acc
-        = .ok (acc ++ pieces.flatMap (fun p => reinterp v.e w (keys v p)), false, tail) := by
+      (∀ p ∈ pieces, PieceOk v p ∧ w ∣ p.length * kb v) → pieces.length < fuel →
+      rdPiecesFrom v cut w fuel (pieces.flatMap (encPiece v) ++ (K v neg ++ tail)) acc
+        = .ok (acc ++ pieces.flatMap (fun p => reinterp v.e w (keys v p)), tail) := by
   intro pieces
   induction pieces with
   | nil =>
-    intro acc fuel _ _ hf
+    intro acc fuel _ hf
     cases fuel with
     | zero => omega
     | succ f =>
@@ -108,7 +92,7 @@ theorem rdPiecesFrom_enc (v : V2) (cut : Int) (w : Nat) (chk : Bool) (hw : 0 < w
       simp only [rdPiecesFrom, List.flatMap_nil, List.nil_append, getKey_K v neg _ hnk, rdPieces, this, if_false,
         List.append_nil]
   | cons p t ih =>
-    intro acc fuel hok hsm hf
+    intro acc fuel hok hf
     cases fuel with
     | zero => omega
     | succ f =>
@@ -116,13 +100,9 @@ theorem rdPiecesFrom_enc (v : V2) (cut : Int) (w : Nat) (chk : Bool) (hw : 0 < w
       obtain ⟨hck, hcp⟩ := hp.count
       have hkl : (keys v p).length < 2147483648 := by rw [length_keys]; exact hp.len
       obtain ⟨hn, hl⟩ := div_len v w hw p hd
-      have hcur : (chunks w ((keys v p).length / w) (keys v p)).map (natOfBytes v.e) = reinterp v.e w (keys v p) := rfl
-      have hov := overflow_false v w chk cut (((keys v p).length / w : Nat) : Int) p (fun hc => hsm hc p List.mem_cons_self)
       simp only [rdPiecesFrom, List.flatMap_cons, encPiece, List.append_assoc, getKey_K v _ _ hck, rdPieces,
-        gt_iff_lt, hcp, if_true, rdI4_R v _ _ hkl, hn, rdItems_payload v.e cut w hw _ (keys v p) _ hl, drop4_mark, hcur,
-        hov, Bool.or_false]
-      have := ih (acc ++ reinterp v.e w (keys v p)) f (fun x hx => hok x (List.mem_cons_of_mem _ hx))
-        (fun hc q hq => hsm hc q (List.mem_cons_of_mem _ hq)) (by simpa using hf)
+        gt_iff_lt, hcp, if_true, rdI4_R v _ _ hkl, hn, rdItems_payload v.e cut w hw _ (keys v p) _ hl, drop4_mark]
+      have := ih (acc ++ reinterp v.e w (keys v p)) f (fun x hx => hok x (List.mem_cons_of_mem _ hx)) (by simpa using hf)
       simp only [rdPiecesFrom, List.append_assoc] at this
       exact this
 
@@ -148,28 +128,28 @@ theorem payload_eq (v : V2) (pieces : List (List Int)) : payload v pieces = keys
 
 /-! ### the numeric forms, `N > 0` -/
 
-def rdPiecesNFrom (v : V2) (cut : Int) (w : Nat) (chk : Bool) (fuel : Nat) (s : List Nat) (data : List Nat) (i : Int) :
+def rdPiecesNFrom (v : V2) (cut : Int) (w fuel : Nat) (s : List Nat) (data : List Nat) (i : Int) :
     M (List Nat × Int × List Nat) :=
   match getKey v s with
   | .error e => .error e
-  | .ok (key, s) => rdPiecesN v cut w chk fuel key s data i
+  | .ok (key, s) => rdPiecesN v cut w fuel key s data i
 
 theorem length_reinterp (e : Endian) (w : Nat) (b : List Nat) : (reinterp e w b).length = b.length / w := by
   simp [reinterp, length_chunks]
 
-theorem rdPiecesNFrom_enc (v : V2) (cut : Int) (w : Nat) (chk : Bool) (hw : 0 < w) (neg : Int) (hneg : neg < 0)
-    (hnk : InKey v neg) (tail : List Nat) :
+theorem rdPiecesNFrom_enc (v : V2) (cut : Int) (w : Nat) (hw : 0 < w) (neg : Int) (hneg : neg < 0) (hnk : InKey v neg)
+    (tail : List Nat) :
     ∀ (pieces : List (List Int)) (done : List Nat) (k : Nat) (fuel : Nat),
-      (∀ p ∈ pieces, PieceOk v p ∧ w ∣ p.length * kb v) → SmallItems v w chk pieces → pieces.length < fuel →
+      (∀ p ∈ pieces, PieceOk v p ∧ w ∣ p.length * kb v) → pieces.length < fuel →
       k = (pieces.flatMap (fun p => reinterp v.e w (keys v p))).length →
-      rdPiecesNFrom v cut w chk fuel (pieces.flatMap (encPiece v) ++ (K v neg ++ tail)) (done ++ List.replicate k 0)
+      rdPiecesNFrom v cut w fuel (pieces.flatMap (encPiece v) ++ (K v neg ++ tail)) (done ++ List.replicate k 0)
           (done.length : Int)
         = .ok (done ++ pieces.flatMap (fun p => reinterp v.e w (keys v p)),
             ((done.length + k : Nat) : Int), tail) := by
   intro pieces
   induction pieces with
   | nil =>
-    intro done k fuel _ _ hf hk
+    intro done k fuel _ hf hk
     cases fuel with
     | zero => omega
     | succ f =>
@@ -179,7 +159,7 @@ theorem rdPiecesNFrom_enc (v : V2) (cut : Int) (w : Nat) (chk : Bool) (hw : 0 < 
       simp only [rdPiecesNFrom, List.flatMap_nil, List.nil_append, getKey_K v neg _ hnk, rdPiecesN, this, if_false,
         List.replicate_zero, List.append_nil, Nat.add_zero]
   | cons p t ih =>
-    intro done k fuel hok hsm hf hk
+    intro done k fuel hok hf hk
     cases fuel with
     | zero => omega
     | succ f =>
@@ -187,7 +167,6 @@ theorem rdPiecesNFrom_enc (v : V2) (cut : Int) (w : Nat) (chk : Bool) (hw : 0 < 
       obtain ⟨hck, hcp⟩ := hp.count
       have hkl : (keys v p).length < 2147483648 := by rw [length_keys]; exact hp.len
       obtain ⟨hn, hl⟩ := div_len v w hw p hd
-      have hov := overflow_false v w chk cut (((keys v p).length / w : Nat) : Int) p (fun hc => hsm hc p List.mem_cons_self)
       simp only [List.flatMap_cons, List.length_append] at hk
       generalize hk' : (t.flatMap (fun p => reinterp v.e w (keys v p))).length = k' at hk
       subst hk
@@ -206,12 +185,10 @@ theorem rdPiecesNFrom_enc (v : V2) (cut : Int) (w : Nat) (chk : Bool) (hw : 0 < 
           List.drop_replicate]
         congr 2; omega
       simp only [rdPiecesNFrom, List.flatMap_cons, encPiece, List.append_assoc, getKey_K v _ _ hck, rdPiecesN,
-        gt_iff_lt, hcp, if_true, rdI4_R v _ _ hkl, hn, rdItems_payload v.e cut w hw _ (keys v p) _ hl, hcur, hov,
-        Bool.false_eq_true, if_false]
+        gt_iff_lt, hcp, if_true, rdI4_R v _ _ hkl, hn, rdItems_payload v.e cut w hw _ (keys v p) _ hl, hcur]
       rw [hql, hassign, hres]
       simp only [drop4_mark]
-      have := ih (done ++ q) k' f (fun x hx => hok x (List.mem_cons_of_mem _ hx))
-        (fun hc r hr => hsm hc r (List.mem_cons_of_mem _ hr)) (by simpa using hf) hk'.symm
+      have := ih (done ++ q) k' f (fun x hx => hok x (List.mem_cons_of_mem _ hx)) (by simpa using hf) hk'.symm
       simp only [rdPiecesNFrom, List.length_append] at this
       have e1 : ((done.length : Nat) : Int) + ((q.length : Nat) : Int) = ((done.length + q.length : Nat) : Int) := by omega
       rw [e1]
